@@ -38,6 +38,11 @@ def _plan(tier):
           (PG.failing("bad_arg", 1), 1, PT), (PG.idle_then_submit(2, 0.05), 1, PT),
           (PG.forced_full_pipe(1, 1024, 3, 700, False), 1, PT),
           (PG.forced_full_pipe(1, 1024, 3, 700, True), 1, PT)]
+    # crash lifecycles for unusual causes of death (a real-time signal, a signal number without
+    # a name, exit statuses): whatever the diagnostics say, the lifecycle leaves nothing behind
+    pl += [(PG.die_code(code, 2), 0, PT) for code in (-35, -63, -64, -34, -1, -11, 255, 1, 0)]
+    pl += [(PG.die_unwatched(code, 2), 0, PT) for code in (-35, -63, -9, 3)]
+    pl += [(PG.die_unwatched(-35, 1), 1, PT)]
     if tier == "thorough":
         pl += [(PG.lifecycle_twice(2, None), 2, dict(kinds=("P",))), (PG.basic(2, 0.05), 2, PT),
                (PG.reusable_replace(None, False), 2, dict(kinds=("P",)))]
